@@ -22,6 +22,7 @@ func init() {
 			"R2 kind table: the mapping from OVMF section kind to SNP page type covers exactly the section-kind constants declared in ovmf/abi, maps them to {unmeasured, secret, cpuid, zero} respectively (constants checked by value) and rejects every other kind. " +
 			"R3 purity: no store / copy in the call closure of LaunchDigest and UnsignedSnp writes through the image parameter. " +
 			"R4 determinism: the closure of LaunchDigest calls no clock, random source or environment lookup and has no map iteration whose body extends the measurement. " +
+			"R6 declared order: every sort call in the call closure of LaunchDigest sorts a slice allocated in the same function (a copy), so the SNP metadata sections reach the measurement in the order the firmware declares them. " +
 			"R5 AP reset vector: where the SEV-ES reset block is decoded, its first result is stored into VmcbSaveArea.Rip and its second into VmcbSeg.Base of an object other than the boot processor's VMSA, by stores that dominate every successful return (a proto merge or conditional copy, which skips zero halves, is not such a store). " +
 			"Not covered (value clauses): equality with the AMD digest chain, PAGE_INFO field values, VMSA defaults, GPA truncation constants, rejection of each malformed-metadata class. PAGE_INFO/VMSA layout is decided under C18.",
 		Assumptions: []string{"go/types, go/ssa, VTA call graph"},
@@ -339,6 +340,14 @@ func runC04(c *Ctx) {
 	}
 	if badCalls+mapRanges == 0 {
 		c.S.OK("R4", "sev.LaunchDigest:deterministic", c.pos(ld.Pos()), fmt.Sprintf("no clock/random/environment call and no measuring map iteration in %d functions", len(clo)), true)
+	}
+
+	// ---------------- R6 declared order survives ----------------
+	// metadata pages are measured in the order the firmware declares them; any sort on the way
+	// from the image to the measurement must work on a copy
+	{
+		nSort := c.sortOnCopiesRule("R6", func(f *ssa.Function) bool { return clo[f] && load.FuncInRepo(f) })
+		c.S.OK("R6", "sev.LaunchDigest:declared order", c.pos(ld.Pos()), fmt.Sprintf("%d sort calls in the closure of LaunchDigest, all on copies", nSort), false)
 	}
 
 	// ---------------- R5 AP reset vector ----------------
